@@ -318,8 +318,13 @@ SUBS = [
     Sub("addrgroup", judge_addrgroup, strategy=addrgroup_case_st, quick=1000, thorough=30000),
 ]
 
+# coverage-guided twins (fuzz/fuzz_hyp.py): atheris mutates the bytes Hypothesis decodes into cases of the same strategy
+SUBS += [__import__("lib.harness", fromlist=["x"]).cov_sub('C10', s_) for s_ in list(SUBS) if s_.name in ('acl',)]
+
 MANIFEST = {
     "technique": "property-based testing against an arithmetic reference model of resequence(), with boundary-directed generation of start/step around 0, 1 and 2^32-1 and generated ACL shapes (flat, grouped, explicit AceGroups, address groups)",
     "text": "exploration: numbers, return value, error/no-error decision, unchanged text and unchanged item identity agree with the model on thousands (quick) / 180 000 (thorough) generated (shape, start, step) cases; the overflow boundary start+(n-1)*step vs 2^32-1 is approached from both sides by construction",
     "note": "trusted: the arithmetic model stated in the property; nothing is asserted about numbers after an error return; groups are non-empty",
 }
+MANIFEST["engine"] += " + atheris (coverage-guided twins of the Hypothesis sub-checks, fuzz/fuzz_hyp.py: 2 jobs x 8 s quick, 8 jobs x 200 s thorough)"
+MANIFEST["technique"] += "; plus coverage-guided fuzzing of the same strategies (atheris/libFuzzer mutates the byte stream Hypothesis decodes into cases, the same oracle runs inside the target, findings are re-judged outside it)"
